@@ -306,6 +306,135 @@ static void runtime_type_case(vh_rng* r, int ninst) {
   if (nd == 0) { vh_count("runtime_types_with_no_instance"); }
 }
 
+
+/* ---------- dispatchers with a documented default: an empty member falls back, it is never invoked ----------
+** construct / destruct / copy / assign / swap / cmp / hash / show / size do not raise ClassError when the class or the
+** member is missing: they do what a type without the class gets.  For a run-time type that declares these classes
+** with a random subset of their members filled by counting stubs: a filled member runs exactly once per call, an
+** empty one runs nothing (the call neither crashes nor raises) and the result is the default. */
+
+enum { FB_CONSTRUCT, FB_DESTRUCT, FB_COPY, FB_ASSIGN, FB_SWAP, FB_CMP, FB_HASH, FB_SHOW, FB_LOOK, FB_SIZE, FB_N };
+static volatile long fb_calls[FB_N];
+static const char* FB_NAME[FB_N] = { "construct_with", "destruct", "copy", "assign", "swap", "cmp", "hash", "show", "look", "size" };
+static void fb_construct(var s, var args) { (void)s; (void)args; fb_calls[FB_CONSTRUCT]++; }
+static void fb_destruct(var s) { (void)s; fb_calls[FB_DESTRUCT]++; }
+static var fb_copy(var s) { fb_calls[FB_COPY]++; var c = alloc_raw(type_of(s)); memcpy(c, s, 16); return c; }
+static void fb_assign(var s, var o) { fb_calls[FB_ASSIGN]++; memcpy(s, o, 16); }
+static void fb_swap(var s, var o) { (void)s; (void)o; fb_calls[FB_SWAP]++; }
+static int fb_cmp(var s, var o) { (void)s; (void)o; fb_calls[FB_CMP]++; return 0; }
+static uint64_t fb_hash(var s) { (void)s; fb_calls[FB_HASH]++; return 42; }
+static int fb_show(var s, var out, int pos) { (void)s; (void)out; fb_calls[FB_SHOW]++; return pos; }
+static int fb_look(var s, var inp, int pos) { (void)s; (void)inp; fb_calls[FB_LOOK]++; return pos; }
+static size_t fb_size(void) { fb_calls[FB_SIZE]++; return 16; }
+
+static void fb_expect(const long* before, int which, int present, var exc, const char* what) {
+  vh_evals(2);
+  if (exc) { vh_violation(K("fallback:raised"), "%s on a type whose %s member is %s raised %s", what, FB_NAME[which], present ? "filled" : "empty or undeclared", vh_exc_name(exc)); return; }
+  for (int k = 0; k < FB_N; k++) {
+    long d = fb_calls[k] - before[k];
+    if (k == FB_SIZE) { continue; }                    /* size is asked for by many operations */
+    if (k == which) {
+      if (present && d != 1) { vh_violation(K("fallback:filled-member-not-invoked-exactly-once"), "%s: the filled member %s ran %ld times", what, FB_NAME[k], d); }
+      if (!present && d != 0) { vh_violation(K("fallback:something-was-invoked-for-an-empty-member"), "%s: member %s is empty but a stub ran %ld times", what, FB_NAME[k], d); }
+    }
+  }
+  vh_count(present ? "fallback_calls_to_filled_member" : "fallback_calls_to_empty_member");
+}
+
+static void fallback_case(vh_rng* r) {
+  /* declared: bit per class; filled: bit per member */
+  int decl_new = vh_chance(r, 70), decl_copy = vh_chance(r, 60), decl_assign = vh_chance(r, 60), decl_swap = vh_chance(r, 60),
+      decl_cmp = vh_chance(r, 60), decl_hash = vh_chance(r, 60), decl_show = vh_chance(r, 60), decl_size = vh_chance(r, 40);
+  int has[FB_N];
+  for (int k = 0; k < FB_N; k++) { has[k] = vh_chance(r, 50); }
+  if (!decl_new) { has[FB_CONSTRUCT] = has[FB_DESTRUCT] = 0; }
+  if (!decl_copy) { has[FB_COPY] = 0; }
+  if (!decl_assign) { has[FB_ASSIGN] = 0; }
+  if (!decl_swap) { has[FB_SWAP] = 0; }
+  if (!decl_cmp) { has[FB_CMP] = 0; }
+  if (!decl_hash) { has[FB_HASH] = 0; }
+  if (!decl_show) { has[FB_SHOW] = has[FB_LOOK] = 0; }
+  if (!decl_size) { has[FB_SIZE] = 0; }
+  var args = new(Tuple);
+  char tname[32]; snprintf(tname, sizeof tname, "FB%ld", (long)vh_below(r, 100000000));
+  push(args, $S(strdup(tname))); push(args, $I(16));
+  void* two[2];
+  if (decl_new) { two[0] = (void*)fb_construct; two[1] = (void*)fb_destruct; push(args, make_instance(New, 2, two, (uint32_t)(has[FB_CONSTRUCT] | has[FB_DESTRUCT] << 1))); }
+  if (decl_copy) { two[0] = (void*)fb_copy; push(args, make_instance(Copy, 1, two, (uint32_t)has[FB_COPY])); }
+  if (decl_assign) { two[0] = (void*)fb_assign; push(args, make_instance(Assign, 1, two, (uint32_t)has[FB_ASSIGN])); }
+  if (decl_swap) { two[0] = (void*)fb_swap; push(args, make_instance(Swap, 1, two, (uint32_t)has[FB_SWAP])); }
+  if (decl_cmp) { two[0] = (void*)fb_cmp; push(args, make_instance(Cmp, 1, two, (uint32_t)has[FB_CMP])); }
+  if (decl_hash) { two[0] = (void*)fb_hash; push(args, make_instance(Hash, 1, two, (uint32_t)has[FB_HASH])); }
+  if (decl_show) { two[0] = (void*)fb_show; two[1] = (void*)fb_look; push(args, make_instance(Show, 2, two, (uint32_t)(has[FB_SHOW] | has[FB_LOOK] << 1))); }
+  if (decl_size) { two[0] = (void*)fb_size; push(args, make_instance(Size, 1, two, (uint32_t)has[FB_SIZE])); }
+  var exc = NULL, type = NULL;
+  VH_CATCH(type = new_root_with(Type, args), exc);
+  vh_op("fallback type: New%d(%d%d) Copy%d(%d) Assign%d(%d) Swap%d(%d) Cmp%d(%d) Hash%d(%d) Show%d(%d%d) Size%d(%d)", decl_new, has[0], has[1], decl_copy, has[2],
+    decl_assign, has[3], decl_swap, has[4], decl_cmp, has[5], decl_hash, has[6], decl_show, has[7], has[8], decl_size, has[9]);
+  if (exc || !type) { vh_violation(K("runtime-type:construction-raised"), "new(Type, ...) raised %s", vh_exc_name(exc)); return; }
+  long before[FB_N];
+  #define SNAP() do { for (int q = 0; q < FB_N; q++) { before[q] = fb_calls[q]; } } while (0)
+  /* construction with no argument */
+  volatile var a = NULL, b = NULL, c = NULL;
+  SNAP(); VH_CATCH(a = new_raw_with(type, tuple()), exc); fb_expect(before, FB_CONSTRUCT, has[FB_CONSTRUCT], exc, "new_raw (no argument)");
+  SNAP(); VH_CATCH(b = new_raw_with(type, tuple()), exc); fb_expect(before, FB_CONSTRUCT, has[FB_CONSTRUCT], exc, "new_raw (no argument)");
+  if (!a || !b) { return; }
+  memset(a, 0x11, 16); memset(b, 0x22, 16);
+  /* construction with one argument of the same type: the constructor if there is one, otherwise assignment */
+  SNAP(); VH_CATCH(c = new_raw_with(type, tuple(a)), exc);
+  if (has[FB_CONSTRUCT]) { fb_expect(before, FB_CONSTRUCT, 1, exc, "new_raw (one argument)"); }
+  else {
+    fb_expect(before, FB_ASSIGN, has[FB_ASSIGN], exc, "new_raw (one argument, no constructor: assignment)");
+    if (!exc && c && memcmp(c, a, 16) != 0) { vh_violation(K("fallback:default-result-wrong"), "an object constructed from one argument without a constructor is not a copy of the argument"); }
+  }
+  if (c) { SNAP(); VH_CATCH(del_raw(c), exc); fb_expect(before, FB_DESTRUCT, has[FB_DESTRUCT], exc, "del_raw"); c = NULL; }
+  /* copy */
+  SNAP(); VH_CATCH(c = copy(a), exc);
+  fb_expect(before, FB_COPY, has[FB_COPY], exc, "copy");
+  if (!has[FB_COPY] && !exc) {
+    if (fb_calls[FB_ASSIGN] - before[FB_ASSIGN] != (has[FB_ASSIGN] ? 1 : 0)) { vh_violation(K("fallback:default-copy-does-not-assign-once"), "copy without a Copy member ran the assign stub %ld times", fb_calls[FB_ASSIGN] - before[FB_ASSIGN]); }
+  }
+  if (!exc && c && memcmp(c, a, 16) != 0) { vh_violation(K("fallback:default-result-wrong"), "copy differs from the original"); }
+  if (c && mem(current(GC), c)) { SNAP(); VH_CATCH(del(c), exc); fb_expect(before, FB_DESTRUCT, has[FB_DESTRUCT], exc, "del of the copy"); }
+  else if (c) { SNAP(); VH_CATCH(del_raw(c), exc); fb_expect(before, FB_DESTRUCT, has[FB_DESTRUCT], exc, "del_raw of the copy"); }
+  /* assign */
+  SNAP(); VH_CATCH(assign(b, a), exc); fb_expect(before, FB_ASSIGN, has[FB_ASSIGN], exc, "assign");
+  if (!exc && memcmp(b, a, 16) != 0) { vh_violation(K("fallback:default-result-wrong"), "after assign(b, a) the two objects differ"); }
+  /* swap */
+  memset(b, 0x22, 16);
+  SNAP(); VH_CATCH(swap(a, b), exc); fb_expect(before, FB_SWAP, has[FB_SWAP], exc, "swap");
+  if (!exc && !has[FB_SWAP] && (*(unsigned char*)a != 0x22 || *(unsigned char*)b != 0x11)) { vh_violation(K("fallback:default-result-wrong"), "default swap did not exchange the two objects"); }
+  /* cmp and the predicates derived from it */
+  int cr = 7; bool e = false;
+  SNAP(); VH_CATCH(cr = cmp(a, b), exc); fb_expect(before, FB_CMP, has[FB_CMP], exc, "cmp");
+  if (!exc && !has[FB_CMP] && cr == 0) { vh_violation(K("fallback:default-result-wrong"), "default cmp of two different objects is 0"); }
+  SNAP(); VH_CATCH(e = eq(a, a), exc); fb_expect(before, FB_CMP, has[FB_CMP], exc, "eq");
+  if (!exc && !e) { vh_violation(K("fallback:default-result-wrong"), "eq(a, a) is false"); }
+  /* hash */
+  uint64_t h = 0;
+  SNAP(); VH_CATCH(h = hash(a), exc); fb_expect(before, FB_HASH, has[FB_HASH], exc, "hash");
+  if (!exc && has[FB_HASH] && h != 42) { vh_violation(K("fallback:default-result-wrong"), "hash did not return the declared function's value"); }
+  if (!exc && !has[FB_HASH] && h != hash_data(a, 16)) { vh_violation(K("fallback:default-result-wrong"), "default hash is not hash_data over the object"); }
+  /* show */
+  var out = new(String); int pos = -1;
+  SNAP(); VH_CATCH(pos = show_to(a, out, 0), exc); fb_expect(before, FB_SHOW, has[FB_SHOW], exc, "show_to");
+  if (!exc && !has[FB_SHOW]) {
+    char want[80]; snprintf(want, sizeof want, "<'%s' At 0x%p>", tname, (void*)a);
+    if (strcmp(c_str(out), want) != 0 || pos != (int)strlen(want)) { vh_violation(K("fallback:default-result-wrong"), "default show wrote \"%s\" (returned %d), expected \"%s\"", c_str(out), pos, want); }
+  }
+  /* size */
+  size_t sz = 0;
+  SNAP(); VH_CATCH(sz = size(type), exc);
+  vh_evals(2);
+  if (exc || sz != 16) { vh_violation(K("fallback:default-result-wrong"), "size(type) gave %zu / %s", sz, vh_exc_name(exc)); }
+  if ((fb_calls[FB_SIZE] - before[FB_SIZE] != 0) != (has[FB_SIZE] != 0)) { vh_violation(K("fallback:something-was-invoked-for-an-empty-member"), "size: stub ran %ld times, member %s", fb_calls[FB_SIZE] - before[FB_SIZE], has[FB_SIZE] ? "filled" : "empty"); }
+  /* destruction */
+  SNAP(); VH_CATCH(del_raw(a), exc); fb_expect(before, FB_DESTRUCT, has[FB_DESTRUCT], exc, "del_raw");
+  SNAP(); VH_CATCH(del_raw(b), exc); fb_expect(before, FB_DESTRUCT, has[FB_DESTRUCT], exc, "del_raw");
+  #undef SNAP
+  vh_count("fallback_types");
+}
+
 /* ---------- concurrency: first lookups against cold caches from 16 threads ---------- */
 
 enum { NTHREADS = 16 };
@@ -405,6 +534,7 @@ static void fixed(void) {
     if (exc == NULL) { vh_violation("C08:runtime-type:257-instances-accepted", "a type with 257 instances was constructed without an exception"); }
     vh_count("oversized_type_attempts");
   }
+  for (int k = 0; k < 40; k++) { vh.oplen = 0; vh.oplog[0] = 0; vh.nops = 0; fallback_case(&r); }
   concurrent_cold_lookups(&r, 50);
 }
 
@@ -413,6 +543,7 @@ static void case_random(vh_rng* r, long index) {
   if (index % 3 == 0) {
     int ni = vh_chance(r, 20) ? 200 + (int)vh_below(r, 57) : (int)vh_below(r, 40);
     runtime_type_case(r, ni);
+    for (int k = 0; k < 4; k++) { fallback_case(r); }
   } else if (index % 3 == 1) {
     int n = 200 + (int)vh_below(r, 400);
     int cold = vh_chance(r, 50);
